@@ -106,6 +106,20 @@ def q_preset_coverage(F, cg, rep):
     a, allv, _ = enum_arms(s); b, _, wb = enum_arms(w)
     if a is None or b is None: return False, "no discriminant switch"
     callers = [(g.path, bi) for g, bi in cg.sites.get(s.path, [])]
+    # a caller that names the variant itself (`ZervSchemaPreset::CalverBase.schema()`) is fine when schema() handles that variant
+    def const_handled(pth, bi):
+        g_ = F.fn(pth)
+        if g_ is None: return False
+        t_ = g_.blocks[bi]["t"]
+        vs = set()
+        for o in mir.trace_op(g_, t_[2][0], transparent=mir.TRANSPARENT):
+            if o.kind == "agg":
+                rv = mir.rv_at(o.fn, *o.data)
+                if (rv[1].get("adt") or "").endswith("ZervSchemaPreset") and not rv[2]: vs.add(rv[1].get("variant")); continue
+            if o.kind == "const" and isinstance(o.data, dict) and o.data.get("k") == "variant": vs.add(o.data.get("v")); continue
+            return False
+        return bool(vs) and vs <= a
+    callers = [(p, bi) for p, bi in callers if not const_handled(p, bi)]
     only_w = all(p == w.path for p, _ in callers)
     # in schema_with_zerv the call must sit on the otherwise edge of the switch
     t = w.blocks[wb]["t"]
@@ -201,6 +215,23 @@ def q_local_from_regex(F, cg, rep):
     ok = ok_callers and ok_arg and ok_rx and rep_ok
     return ok, "only from_str feeds parse_local_segments (%s), with the 'local' capture (%s); L(regex) within Appendix B so segments are ASCII alphanumerics (%s); '-'/'_' normalised to '.' before split (%s)" % (ok_callers, ok_arg, ok_rx, rep_ok)
 
+def validation_errs_need_var(F):
+    """Every error the schema validator can return is reachable only through a Component::Var (or for a schema with no component at
+    all): then a schema the conversions extend with UInt / Str literals cannot fail validation.  -> list of sites that break this."""
+    off = []
+    for p, g in F.fns.items():
+        if not p.startswith("crate::version::zerv::schema::validation::") or "::tests" in p: continue
+        var_list_param = any("[crate::version::zerv::components::Var]" in str(g.locals[i]) or "Vec<crate::version::zerv::components::Var" in str(g.locals[i]) for i in range(1, g.nargs + 1))
+        for bi, si, st in g.stmts():
+            if not (st[0] == "=" and st[2][0] == "agg" and st[2][1].get("k") == "adt" and (st[2][1].get("adt") or "").endswith("error::ZervError")): continue
+            ok = var_list_param
+            for d, pol, dd in mir.guards_of(g, bi):
+                if d[0] == "discr" and str(d[2]).endswith("components::Component") and isinstance(pol, tuple) and pol[0] == "in" and set(pol[1]) == {"Var"}: ok = True
+                if d[0] == "discr" and str(d[2]).endswith("components::Var"): ok = True
+                if d[0] == "call" and str(d[1]).endswith("::is_empty") and pol is True: ok = True
+            if not ok: off.append("%s bb%d line %s" % (g.where(), bi, g.blocks[bi]["line"]))
+    return off
+
 def q_pushes_literals(F, cg, rep):
     f = F.fn("crate::version::pep440::to_zerv::<impl crate::version::pep440::core::PEP440>::to_zerv_with_schema")
     if f is None: return False, "anchor missing"
@@ -225,7 +256,9 @@ def q_pushes_literals(F, cg, rep):
                         if o.kind == "agg":
                             rv = mir.rv_at(o.fn, *o.data); v = rv[1].get("variant")
                         if v not in ("UInt", "Str"): bad.append("%s bb%d: %r" % (g.path, bi, o))
-    return n >= 2 and not bad, "%d schema pushes, all of Component::UInt/Str literals (never a Var, so placement validation cannot fail)%s" % (n, (" except " + str(bad)) if bad else "")
+    off = validation_errs_need_var(F)
+    if off: return False, "the schema validator has an error exit that does not depend on a Var component (%s): a schema extended with literals only can now fail validation, so the `expect`/`unwrap` on its result can panic" % off[0]
+    return n >= 2 and not bad, "%d schema pushes, all of Component::UInt/Str literals (never a Var, so placement validation cannot fail: every validator error exit is under a Component::Var test)%s" % (n, (" except " + str(bad)) if bad else "")
 
 def q_semver_dup_guard(F, cg, rep):
     iv = [x for x in F.find("PreReleaseProcessor::<'a>::is_var_set")]
@@ -254,6 +287,9 @@ def q_semver_dup_guard(F, cg, rep):
                 for o in mir.trace_op(g, t[2][1], transparent=()):
                     if o.kind == "agg" and mir.rv_at(o.fn, *o.data)[1].get("variant") == "Var": pushers.add(p.rsplit("::", 1)[-1])
     ok = has_contains and order and pushers <= {"finalize_var", "to_zerv_with_schema"}
+    # ... and nothing but a Var (duplicate / misplaced, excluded above) can make validation fail
+    off = [x for x in validation_errs_need_var(F)]
+    if off: return False, "the schema validator has an error exit that does not depend on a Var component (%s): a schema extended with literal identifiers can now fail validation" % off[0]
     return ok, "is_var_set consults the schema (%s); handle_duplicate dominates process_new_var (%s); Var pushed only by %s" % (has_contains, order, sorted(pushers))
 
 def q_guard_pending(F, cg, rep):
@@ -371,6 +407,18 @@ def check(F, rep, tier):
     stdout_rules(F, rep, cg, root, rwa, reach)
     git_errors(F, rep, cg)
     template_recursion(F, rep, cg, reach)
+    # ---- R13.8 parsers of untrusted documents keep their recursion limit (a limit turned off trades an error for a stack overflow) --
+    unl = []
+    for p_ in sorted(reach):
+        g_ = F.fn(p_)
+        if g_ is None or "::tests" in p_ or "test_utils" in p_: continue
+        for bi, t in g_.calls():
+            c = mir.callee(t) or ""
+            if c.endswith("Options::without_recursion_limit") or c.endswith("::disable_recursion_limit") or (c.endswith("Options::with_recursion_limit") and isinstance(mir.const_arg(g_, t[2][1]) if len(t[2]) > 1 else None, int) and mir.const_arg(g_, t[2][1]) > 1024):
+                unl.append((g_, bi, c))
+    for g_, bi, c in unl:
+        rep.bad("R13.8", "recursion-limit-off:" + g_.path.replace("crate::", "").rsplit("::", 1)[-1], "%s parses input with %s: a deeply nested document (e.g. 100k '[' in vars.custom on stdin) overflows the stack and aborts instead of failing with an error" % (g_.path.rsplit("::", 1)[-1], c.rsplit("::", 2)[-2] + "::" + c.rsplit("::", 1)[-1]), "%s bb%d line %s" % (g_.where(), bi, g_.blocks[bi]["line"]))
+    if not unl: rep.ok("R13.8", "no reachable parser call switches its recursion limit off (ron / serde_json defaults are kept)", nontrivial_key="reclimit")
     # the audited unwraps of LocalSegment::try_new_str rest on "every resolved value is a sanitiser output" (C01 R01.2)
     core.borrow(F, rep, "c01", "C01", "R13.1", ("R01.2:unsanitised",), "values that reach LocalSegment::try_new_str(..).unwrap() are sanitiser outputs")
     return core.finish(rep, explanation=EXPL, assumptions=ASSUME, trusted=TRUST)
